@@ -40,6 +40,12 @@ PROPS = {
         "missing": "UTF-8 theorem, prefix rejection, text fallback",
         "assumptions": [],
     },
+    "C05": {
+        "panic_is_violation": True,
+        "proved": "refinement theorems (unbounded, any nesting): array_length and get_by_index on the README layout of a good document return the encoding of the tree answer, for every index; returned sub-values are canonical documents. Backbone lemmas proved for all walkers: iterate_array / iterate_object_entries yield exactly the elements' (entry, payload) pairs; get_jentry_by_index lands on the sum of earlier payload lengths.",
+        "missing": "refinement theorems for get_by_name, get_by_keypath, object_keys, object_each, array_values, type_of, as_*/to_*, exists_*_keys, traverse_check_string: these are decided by correspondence (byte-level model vs Rust) plus the spec oracle (tree answer vs Rust) only",
+        "assumptions": ["documents are canonical encodings of good values"],
+    },
     "C17": {
         "panic_is_violation": True,
         "proved": "Value::write_to_vec: for every prior buffer content the Encoder model appends exactly encodeSpec v and leaves the prefix untouched",
